@@ -37,6 +37,12 @@ type ctxCase struct {
 	Verify  bool       `json:"verify"`
 	Require bool       `json:"require"`
 	Ca      string     `json:"ca"`
+	// source of the material, enumerated by TLC for the material histories ("" = left to the driver):
+	// inline PEM, a file in the scratch directory, or SDS
+	CaSrc    string `json:"casrc"`
+	CertSrc  string `json:"certsrc"`
+	CaPath   int    `json:"capath"`
+	CertPath int    `json:"certpath"`
 }
 
 type helloCase struct {
@@ -51,6 +57,9 @@ type upCfg struct {
 	Sn   []string `json:"sn"`
 	Skip bool     `json:"skip"`
 	Ca   string   `json:"ca"`
+	// source of ca_cert ("" = left to the driver)
+	CaSrc  string `json:"casrc"`
+	CaPath int    `json:"capath"`
 }
 
 type upCert struct {
@@ -64,6 +73,40 @@ type updCase struct {
 	Pos   int             `json:"pos"`
 	Field string          `json:"field"`
 	Val   json.RawMessage `json:"val"`
+	// how the new material is configured: "inline", "newpath" (another file), "samepath" (the same file rewritten),
+	// "push" (SDS), "cfg"; "" = left to the driver (depends on how it backs the context)
+	How string `json:"how"`
+}
+
+// filesDir holds the certificate files of the cases whose material comes from files (inside the scratch directory).
+var filesDir string
+
+func writeFile(name, content string) string {
+	path := filesDir + "/" + name
+	vh.Must(os.WriteFile(path, []byte(content), 0600), "write "+path)
+	return path
+}
+
+func howOf(u updCase) string {
+	if u.How == "" {
+		return "auto"
+	}
+	return u.How
+}
+
+// updatePath names the way an update took, for the failure signature.
+func updatePath(sdsPush bool, how string) string {
+	switch {
+	case sdsPush:
+		return "sds-push"
+	case how == "samepath":
+		return "config-update:same-file-rewritten"
+	case how == "newpath":
+		return "config-update:other-file"
+	case how == "inline":
+		return "config-update:inline-material"
+	}
+	return "config-update"
 }
 
 type tcase struct {
@@ -290,6 +333,11 @@ func newLive(g *group, p *pki, mock *sdsMock) *liveGroup {
 		switch {
 		case !c.Ready:
 			lg.kinds[i] = "sds-pending"
+		case c.CaSrc != "": // the source of the material is part of the case
+			lg.kinds[i] = "static"
+			if c.CaSrc == "sds" {
+				lg.kinds[i] = "sds-ready"
+			}
 		case g.variant == "sds" || (g.variant == "seed" && rng.Intn(3) == 0):
 			lg.kinds[i] = "sds-ready"
 		default:
@@ -321,9 +369,22 @@ func (lg *liveGroup) tlsContexts() (tlsCfgs []v2.TLSConfig, jctx []vh.Ev, secret
 		certPEM, keyPEM, layout := lg.p.serverLeaf(pos, sortedNames(c.Names))
 		cfg := v2.TLSConfig{Status: true, ServerName: dotted(c.Sn), VerifyClient: c.Verify, RequireClientCert: c.Require,
 			ALPN: strings.Join(c.Alpn, ","), CACert: lg.p.caPEM(c.Ca)}
+		casrc, certsrc := "inline", "inline"
 		if lg.kinds[i] == "static" {
 			cfg.CertChain, cfg.PrivateKey = certPEM, keyPEM
+			// material from files: the file named by the current path id holds the material configured NOW (an update
+			// "samepath" therefore rewrites the file in place, "newpath" creates another one)
+			if c.CaSrc == "file" {
+				casrc = "file"
+				cfg.CACert = writeFile(fmt.Sprintf("%s-ca-%d-%d.pem", lg.lname, pos, c.CaPath), lg.p.caPEM(c.Ca))
+			}
+			if c.CertSrc == "file" {
+				certsrc = "file"
+				cfg.CertChain = writeFile(fmt.Sprintf("%s-cert-%d-%d.pem", lg.lname, pos, c.CertPath), certPEM)
+				cfg.PrivateKey = writeFile(fmt.Sprintf("%s-key-%d-%d.pem", lg.lname, pos, c.CertPath), keyPEM)
+			}
 		} else {
+			casrc, certsrc = "sds", "sds"
 			val, cert := lg.sdsNames(pos)
 			cfg.CACert = ""
 			cfg.SdsConfig = &v2.SdsConfig{CertificateConfig: &v2.SecretConfigWrapper{Name: cert},
@@ -338,7 +399,8 @@ func (lg *liveGroup) tlsContexts() (tlsCfgs []v2.TLSConfig, jctx []vh.Ev, secret
 			nn = [][]string{}
 		}
 		jctx[i] = vh.Ev{"names": nn, "sn": nonNil(c.Sn), "alpn": nonNil(c.Alpn), "ready": c.Ready, "verify": c.Verify,
-			"require": c.Require, "ca": c.Ca, "kind": lg.kinds[i], "layout": layout}
+			"require": c.Require, "ca": c.Ca, "kind": lg.kinds[i], "layout": layout,
+			"casrc": casrc, "certsrc": certsrc, "capath": c.CaPath, "certpath": c.CertPath}
 	}
 	return
 }
@@ -364,7 +426,7 @@ func (lg *liveGroup) apply(u updCase, reconfigure func() error) (vh.Ev, error) {
 			return nil, err
 		}
 		err := reconfigure()
-		return vh.Ev{"ev": "upd", "pos": 0, "field": u.Field, "val": lg.insp, "path": "config-update", "kind": "listener"}, err
+		return vh.Ev{"ev": "upd", "pos": 0, "field": u.Field, "val": lg.insp, "how": howOf(u), "path": "config-update", "kind": "listener"}, err
 	}
 	i := u.Pos - 1
 	if i < 0 || i >= len(lg.cur) {
@@ -394,15 +456,20 @@ func (lg *liveGroup) apply(u updCase, reconfigure func() error) (vh.Ev, error) {
 	if err != nil {
 		return nil, err
 	}
+	if u.How == "newpath" && u.Field == "ca" {
+		c.CaPath++
+	}
+	if u.How == "newpath" && u.Field == "names" {
+		c.CertPath++
+	}
 	lg.cur[i] = c
-	path := "config-update"
+	push := lg.kinds[i] == "sds-ready" && (u.Field == "ca" || u.Field == "names")
+	path := updatePath(push, u.How)
 	val, cert := lg.sdsNames(u.Pos)
 	switch {
 	case lg.kinds[i] == "sds-ready" && u.Field == "ca":
-		path = "sds-push"
 		lg.mock.SetSecret(val, &types.SdsSecret{Name: val, ValidationPEM: lg.p.caPEM(c.Ca)})
 	case lg.kinds[i] == "sds-ready" && u.Field == "names":
-		path = "sds-push"
 		certPEM, keyPEM, _ := lg.p.serverLeaf(u.Pos, sortedNames(c.Names))
 		lg.mock.SetSecret(cert, &types.SdsSecret{Name: cert, CertificatePEM: certPEM, PrivateKeyPEM: keyPEM})
 	default:
@@ -410,7 +477,7 @@ func (lg *liveGroup) apply(u updCase, reconfigure func() error) (vh.Ev, error) {
 	}
 	var v interface{}
 	json.Unmarshal(u.Val, &v)
-	return vh.Ev{"ev": "upd", "pos": u.Pos, "field": u.Field, "val": v, "path": path, "kind": lg.kinds[i]}, err
+	return vh.Ev{"ev": "upd", "pos": u.Pos, "field": u.Field, "val": v, "how": howOf(u), "path": path, "kind": lg.kinds[i]}, err
 }
 
 func deliver(mock *sdsMock, later []pendingSecret) {
@@ -467,67 +534,144 @@ func (w *worker) hellos(g *group, mng types.TLSContextManager, addr string) erro
 
 // ---------------------------------------------------------------- upstream side
 
-// upManager builds the real clientContextManager of an upstream case and pushes the case's update history into it.
-// variant "static": certificate material in the config, every update builds a new manager from the new config
-// (what a cluster update does). variant "sds": SDS backed client context; a CA rotation is a secret push on the
-// running provider, the other fields a config update of the same provider (same cluster name).
-func upManager(p *pki, mock *sdsMock, tc tcase, variant string, idx, attempt int) (types.TLSClientContextManager, []vh.Ev, error) {
-	cur := *tc.Cfg
-	name := fmt.Sprintf("up%d-%s-%d", idx, variant, attempt)
-	val, cert := "val-"+name, "cert-"+name
-	mk := func() (types.TLSClientContextManager, error) {
-		cfg := &v2.TLSConfig{Status: true, ServerName: dotted(cur.Sn), InsecureSkip: cur.Skip}
-		if variant == "sds" {
-			cfg.SdsConfig = &v2.SdsConfig{CertificateConfig: &v2.SecretConfigWrapper{Name: cert},
-				ValidationConfig: &v2.SecretConfigWrapper{Name: val}}
-		} else {
-			cfg.CACert = p.caPEM(cur.Ca)
-		}
-		return mtls.NewTLSClientContextManager(name, cfg)
-	}
-	mng, err := mk()
-	if err != nil {
-		return nil, nil, err
-	}
-	if variant == "sds" {
-		certPEM, keyPEM, _ := p.serverLeaf(0, []string{"mosn-client"})
-		deliver(mock, []pendingSecret{{val, cert, p.caPEM(cur.Ca), certPEM, keyPEM}})
-	}
-	var upds []vh.Ev
-	for _, u := range tc.Upds {
-		path := "config-update"
-		var err error
-		switch u.Field {
-		case "ca":
-			err = json.Unmarshal(u.Val, &cur.Ca)
-		case "sn":
-			cur.Sn = nil
-			err = json.Unmarshal(u.Val, &cur.Sn)
-		case "skip":
-			err = json.Unmarshal(u.Val, &cur.Skip)
-		default:
-			err = fmt.Errorf("unknown upstream update field %q", u.Field)
-		}
-		if err != nil {
-			return nil, nil, err
-		}
-		if variant == "sds" && u.Field == "ca" {
-			path = "sds-push"
-			mock.SetSecret(val, &types.SdsSecret{Name: val, ValidationPEM: p.caPEM(cur.Ca)})
-		} else if mng, err = mk(); err != nil {
-			return nil, nil, err
-		}
-		var v interface{}
-		json.Unmarshal(u.Val, &v)
-		upds = append(upds, vh.Ev{"pos": 0, "field": u.Field, "val": v, "path": path})
-	}
-	if upds == nil {
-		upds = []vh.Ev{}
-	}
-	return mng, upds, nil
+// upLive is the cluster tls config of an upstream case while its update history is pushed.
+// variant "static": material in the config (inline PEM or a file), every update is a config update: a new manager
+// (direct) / a cluster update (e2e) from the new config. variant "sds": SDS backed client context; a CA rotation is a
+// secret push on the running provider, the other fields a config update of the same provider (same cluster name).
+type upLive struct {
+	p         *pki
+	mock      *sdsMock
+	cur       upCfg
+	variant   string
+	name      string
+	val, cert string
 }
 
-func runUp(p *pki, mock *sdsMock, tc tcase, variant string, idx, attempt int) (vh.Ev, error) {
+type upJob struct {
+	tc      tcase
+	variant string
+}
+
+// upJobs decides how each upstream case is backed: as the case says, else both ways for an update history,
+// else a seeded choice.
+func upJobs(ups []tcase) (jobs []upJob) {
+	for i, tc := range ups {
+		switch {
+		case tc.Cfg.CaSrc == "sds":
+			jobs = append(jobs, upJob{tc, "sds"})
+		case tc.Cfg.CaSrc != "":
+			jobs = append(jobs, upJob{tc, "static"})
+		case len(tc.Upds) > 0:
+			jobs = append(jobs, upJob{tc, "static"}, upJob{tc, "sds"})
+		case (vh.Seed()+int64(i))%3 == 0:
+			jobs = append(jobs, upJob{tc, "sds"})
+		default:
+			jobs = append(jobs, upJob{tc, "static"})
+		}
+	}
+	return
+}
+
+func newUpLive(p *pki, mock *sdsMock, j upJob, name string) *upLive {
+	return &upLive{p: p, mock: mock, cur: *j.tc.Cfg, variant: j.variant, name: name, val: "val-" + name, cert: "cert-" + name}
+}
+
+func (u *upLive) casrc() string {
+	switch {
+	case u.variant == "sds":
+		return "sds"
+	case u.cur.CaSrc == "file":
+		return "file"
+	}
+	return "inline"
+}
+
+func (u *upLive) tlsConfig() *v2.TLSConfig {
+	cfg := &v2.TLSConfig{Status: true, ServerName: dotted(u.cur.Sn), InsecureSkip: u.cur.Skip}
+	switch u.casrc() {
+	case "sds":
+		cfg.SdsConfig = &v2.SdsConfig{CertificateConfig: &v2.SecretConfigWrapper{Name: u.cert},
+			ValidationConfig: &v2.SecretConfigWrapper{Name: u.val}}
+	case "file":
+		cfg.CACert = writeFile(fmt.Sprintf("%s-ca-%d.pem", u.name, u.cur.CaPath), u.p.caPEM(u.cur.Ca))
+	default:
+		cfg.CACert = u.p.caPEM(u.cur.Ca)
+	}
+	return cfg
+}
+
+// deliver sends the first secrets of an SDS backed cluster context.
+func (u *upLive) deliver() {
+	if u.variant == "sds" {
+		certPEM, keyPEM, _ := u.p.serverLeaf(0, []string{"mosn-client"})
+		deliver(u.mock, []pendingSecret{{u.val, u.cert, u.p.caPEM(u.cur.Ca), certPEM, keyPEM}})
+	}
+}
+
+func (u *upLive) cfgEvent(c upCfg) vh.Ev {
+	return vh.Ev{"sn": nonNil(c.Sn), "skip": c.Skip, "ca": c.Ca, "casrc": u.casrc(), "capath": c.CaPath}
+}
+
+// apply pushes one update; rebuild realises a config update with the new tls config.
+func (u *upLive) apply(upd updCase, rebuild func(*v2.TLSConfig) error) (vh.Ev, error) {
+	var err error
+	switch upd.Field {
+	case "ca":
+		err = json.Unmarshal(upd.Val, &u.cur.Ca)
+		if upd.How == "newpath" {
+			u.cur.CaPath++
+		}
+	case "sn":
+		u.cur.Sn = nil
+		err = json.Unmarshal(upd.Val, &u.cur.Sn)
+	case "skip":
+		err = json.Unmarshal(upd.Val, &u.cur.Skip)
+	default:
+		err = fmt.Errorf("unknown upstream update field %q", upd.Field)
+	}
+	if err != nil {
+		return nil, err
+	}
+	push := u.variant == "sds" && upd.Field == "ca"
+	if push {
+		u.mock.SetSecret(u.val, &types.SdsSecret{Name: u.val, ValidationPEM: u.p.caPEM(u.cur.Ca)})
+	} else if err = rebuild(u.tlsConfig()); err != nil {
+		return nil, err
+	}
+	var v interface{}
+	json.Unmarshal(upd.Val, &v)
+	return vh.Ev{"pos": 0, "field": upd.Field, "val": v, "how": howOf(upd), "path": updatePath(push, upd.How)}, nil
+}
+
+// upManager builds the real clientContextManager of an upstream case and pushes the case's update history into it.
+func upManager(p *pki, mock *sdsMock, j upJob, idx, attempt int) (types.TLSClientContextManager, vh.Ev, []vh.Ev, error) {
+	name := fmt.Sprintf("up%d-%s-%d", idx, j.variant, attempt)
+	u := newUpLive(p, mock, j, name)
+	cfg0 := u.cfgEvent(u.cur)
+	mng, err := mtls.NewTLSClientContextManager(name, u.tlsConfig())
+	if err != nil {
+		return nil, nil, nil, err
+	}
+	u.deliver()
+	upds := []vh.Ev{}
+	for _, upd := range j.tc.Upds {
+		ev, err := u.apply(upd, func(cfg *v2.TLSConfig) error {
+			m, err := mtls.NewTLSClientContextManager(name, cfg) // what a cluster update does
+			if err == nil {
+				mng = m
+			}
+			return err
+		})
+		if err != nil {
+			return nil, nil, nil, err
+		}
+		upds = append(upds, ev)
+	}
+	return mng, cfg0, upds, nil
+}
+
+func runUp(p *pki, mock *sdsMock, j upJob, idx, attempt int) (vh.Ev, error) {
+	tc, variant := j.tc, j.variant
 	names := make([]string, len(tc.Cert.Names))
 	for i, n := range tc.Cert.Names {
 		names[i] = dotted(n)
@@ -558,7 +702,7 @@ func runUp(p *pki, mock *sdsMock, tc tcase, variant string, idx, attempt int) (v
 		s.Read(one)
 		done <- nil
 	}()
-	mng, upds, err := upManager(p, mock, tc, variant, idx, attempt)
+	mng, cfg0, upds, err := upManager(p, mock, j, idx, attempt)
 	if err != nil {
 		return nil, fmt.Errorf("NewTLSClientContextManager: %v", err)
 	}
@@ -568,7 +712,7 @@ func runUp(p *pki, mock *sdsMock, tc tcase, variant string, idx, attempt int) (v
 	}
 	defer raw.Close()
 	nn := tc.Cert.Names
-	ev := vh.Ev{"ev": "up", "upplain": false, "upds": upds, "variant": variant, "cfg": vh.Ev{"sn": nonNil(tc.Cfg.Sn), "skip": tc.Cfg.Skip, "ca": tc.Cfg.Ca},
+	ev := vh.Ev{"ev": "up", "upplain": false, "upds": upds, "variant": variant, "cfg": cfg0,
 		"cert": vh.Ev{"names": nn, "ca": tc.Cert.Ca, "expired": tc.Cert.Expired}, "ok": false}
 	c, cerr := mng.Conn(raw)
 	if cerr == nil {
@@ -619,6 +763,9 @@ func main() {
 	mock := &sdsMock{cbs: map[string]types.SdsUpdateCallbackFunc{}}
 	mtls.VerifSetSdsClientFunc(func(cfg interface{}) types.SdsClient { return mock })
 	p := newPKI(vh.Seed())
+	wd, _ := os.Getwd() // the check runs the driver inside its scratch directory, removed afterwards
+	filesDir = fmt.Sprintf("%s/c13-files-%s", wd, *mode)
+	vh.Must(os.MkdirAll(filesDir, 0700), "files dir")
 
 	groups := map[string]*group{}
 	var order []*group
@@ -634,7 +781,9 @@ func main() {
 		}
 		kb, _ := json.Marshal([]interface{}{tc.Ctxs, tc.Insp, tc.Upds})
 		variants := []string{"seed"}
-		if len(tc.Upds) > 0 {
+		if len(tc.Ctxs) > 0 && tc.Ctxs[0].CaSrc != "" {
+			variants = []string{"explicit"} // the case says where the material of every context comes from
+		} else if len(tc.Upds) > 0 {
 			variants = []string{"static", "sds"}
 		}
 		for _, v := range variants {
@@ -693,26 +842,18 @@ func main() {
 		nh += len(g.hellos)
 	}
 	nu := 0
-	for i, tc := range ups {
-		variants := []string{"static"}
-		if len(tc.Upds) > 0 {
-			variants = []string{"static", "sds"}
-		} else if (vh.Seed()+int64(i))%3 == 0 {
-			variants = []string{"sds"}
-		}
-		for _, variant := range variants {
-			var ev vh.Ev
-			var err error
-			for attempt := 0; attempt < 3; attempt++ {
-				ev, err = runUp(p, mock, tc, variant, i, attempt)
-				if err == nil {
-					break
-				}
+	for i, j := range upJobs(ups) {
+		var ev vh.Ev
+		var err error
+		for attempt := 0; attempt < 3; attempt++ {
+			ev, err = runUp(p, mock, j, i, attempt)
+			if err == nil {
+				break
 			}
-			vh.Must(err, "upstream case")
-			tr.Emit(ev)
-			nu++
 		}
+		vh.Must(err, "upstream case")
+		tr.Emit(ev)
+		nu++
 	}
 	tr.Close()
 	fmt.Fprintf(os.Stdout, "groups=%d handshakes=%d upstream=%d events=%d\n", len(order), nh, nu, tr.Len())
